@@ -2,7 +2,7 @@
    Only statements, each closed by `exact`, with Print Assumptions beneath. Model: Unify.v (fuel = recursion depth;
    every statement holds for every fuel whenever the outcome is definite; totality is C01_total). *)
 From Coq Require Import List NArith ZArith.
-From GMK Require Import Term Unify UnifySpec.
+From GMK Require Import Term Unify UnifySpec UnifyWf UnifyTotal.
 Import ListNotations.
 
 (* on success the result keeps every earlier binding (it is the old slice with pairs appended) ... *)
@@ -32,6 +32,52 @@ Theorem C01_fuel_irrelevant : forall f u v s, unify f u v s <> OOF ->
   forall f', (f <= f')%nat -> unify f' u v s = unify f u v s.
 Proof. exact unify_mono. Qed.
 Print Assumptions C01_fuel_irrelevant.
+
+(* the result stays a consistent state: distinct keys, acyclic *)
+Theorem C01_wf : forall f u v s s', wf s -> unify f u v s = Ok s' -> wf s'.
+Proof. exact unify_wf. Qed.
+Print Assumptions C01_wf.
+
+(* on success both terms resolve to the identical term under the result *)
+Theorem C01_resolve_identical : forall f u v s s', wf s -> unify f u v s = Ok s' ->
+  exists f1 t, walkstar f1 u s' = Some t /\ walkstar f1 v s' = Some t.
+Proof. exact unify_walkstar_eq. Qed.
+Print Assumptions C01_resolve_identical.
+
+(* totality: on a consistent state unification always terminates with a definite verdict, and the explicit
+   fuel ufuel (a closed formula in the sizes of u, v, s) is enough; walk / occurs / walkStar terminate too *)
+Theorem C01_total : forall u v s, wf s -> exists f0, forall f, (f0 <= f)%nat -> unify f u v s <> OOF.
+Proof. exact unify_total. Qed.
+Print Assumptions C01_total.
+
+Theorem C01_total_explicit : forall u v s, wf s -> unify (ufuel u v s) u v s <> OOF.
+Proof. exact ufuel_enough. Qed.
+Print Assumptions C01_total_explicit.
+
+Theorem C01_walk_total : forall s, wf s -> forall x, exists f0 t, forall f, (f0 <= f)%nat -> walk f x s = Some t.
+Proof. exact walk_total. Qed.
+Print Assumptions C01_walk_total.
+
+Theorem C01_occurs_total : forall x v s, wf s -> exists f0, forall f, (f0 <= f)%nat -> occurs f x v s <> None.
+Proof. exact occurs_total. Qed.
+Print Assumptions C01_occurs_total.
+
+Theorem C01_walkstar_total : forall t s, wf s -> exists f0, forall f, (f0 <= f)%nat -> walkstar f t s <> None.
+Proof. exact walkstar_total. Qed.
+Print Assumptions C01_walkstar_total.
+
+(* hence: succeeds exactly when a finite unifier compatible with the state exists *)
+Theorem C01_succeeds_iff_unifiable : forall u v s, wf s ->
+  (exists s', unify (ufuel u v s) u v s = Ok s') <-> (exists r, sat r s /\ inst r u = inst r v).
+Proof.
+  intros u v s W. pose proof (ufuel_enough u v s W) as T. split.
+  - intros [s' H]. pose proof (unify_wf _ _ _ _ _ W H) as W'.
+    destruct (WS_solution s' u v W') as [r [Hr _]]. exists r.
+    exact (proj2 (unify_sound _ _ _ _ _ H) r Hr).
+  - intros [r [Hs He]]. pose proof (unify_complete (ufuel u v s) u v s r Hs He) as C.
+    destruct (unify (ufuel u v s) u v s) as [| |s'] eqn:E; [congruence | contradiction | eauto].
+Qed.
+Print Assumptions C01_succeeds_iff_unifiable.
 
 (* the goal: exactly one state with the counter unchanged iff a compatible unifier exists, otherwise no state *)
 Theorem C01_goal : forall f u v st l, equalo f u v st = Some l ->
